@@ -73,6 +73,8 @@ def run(ctx, R):
             "an integer that changes representation in the untagged form (Uint64(7) -> 7 -> Int64(7)) no longer compares equal after the "
             "round trip: %s" % (bad8[0]["msg"][:300] if bad8 else ""), {"c08_instances": len(R8.instances)})
 
+    serde_hooks(ctx, R)
+
     n = 0
     for a in C.adts:
         p = a["path"]
@@ -193,6 +195,61 @@ def run(ctx, R):
                     "%s::%s converts to %s::%s(%s); must be the same variant with the same payload"
                     % (src.split("::")[-1], v, (val.get("adt") or "?").split("::")[-1], val.get("variant"),
                        ekey(val["args"][0]) if val.get("args") else ""))
+
+
+def serde_hooks(ctx, R):
+    """r7: `#[serde(deserialize_with / serialize_with = "f")]` puts a user function between the data and the value; the derive
+    expands it into a `__DeserializeWith` / `__SerializeWith` helper that calls f. Every such hook on the IR / value types is
+    inventoried. A hook that reads back an `f64` is evaluated on every float class the writer can emit (normal, +-0, subnormal;
+    nan / inf cannot occur in values): it must return the value unchanged - a hook that refuses any of them breaks the round trip
+    for values that serialize fine. Any other hook has no model yet and fails closed (say what it accepts)."""
+    from tfv import absint as A
+    from tfv import stdmodel as M
+    C = ctx.core
+    R.rule("r7", "custom serde hooks (deserialize_with / serialize_with) on IR and value types are identities on every value the writer can emit")
+    hooks = {}
+    for f in C.fns:
+        st = f.get("self_ty") or ""
+        if not (("__DeserializeWith" in st or "__SerializeWith" in st) and "trustfall_core::ir::" in st):
+            continue
+        for c in calls_in(f["body"]):
+            callee = c.get("resolved") or c.get("callee") or ""
+            g = C.fn(callee)
+            if g is not None and callee.startswith("trustfall_core::") and not g.get("impl_trait"):
+                owner = st.split(" for ")[-1].split(">")[0] if " for " in st else st
+                hooks[(owner, callee, "de" if "__DeserializeWith" in st else "ser")] = g
+    R.units["serde_hooks"] = sorted("%s %s" % (k[2], k[1].split("::")[-1]) for k in hooks)
+    I = M.intrinsics()
+    I.update(M.string_intrinsics())
+    I["serde_core::de::Deserialize::deserialize"] = lambda ip, n, a: M.ok(A.deref(a[0]))
+    I["serde::de::Deserialize::deserialize"] = I["serde_core::de::Deserialize::deserialize"]
+    I["serde_core::de::Error::custom"] = lambda ip, n, a: A.Sym("serde-error")
+    I["serde::de::Error::custom"] = I["serde_core::de::Error::custom"]
+    for (owner, callee, kind), g in sorted(hooks.items(), key=lambda kv: kv[0]):
+        key = "hook/%s/%s" % (owner.split("::")[-1], callee.split("::")[-1])
+        ret = C.S(g.get("ret_ty")) or ""
+        if kind == "de" and ret.startswith("core::result::Result<f64,"):
+            bad = None
+            try:
+                for cls in ("finite", "zero", "subnormal"):
+                    v = A.Sym("f64:" + cls, props={"fclass": cls})
+                    res = A.deref(A.Interp(C, I).call_fn(g, [v]))
+                    if not (res.variant == "Ok" and A.deref(res.fields[0]) is v):
+                        bad = bad or (cls, repr(res))
+            except A.Unsupported as e:
+                R.fail("r7", key + "/unanalysable", C.loc(g["sp"]), "cannot evaluate the deserialize_with hook %s: %s (fail closed)" % (callee, e))
+                continue
+            except A.PanicReached as e:
+                R.fail("r7", key + "/panic", C.loc(g["sp"]), "the deserialize_with hook %s panics: %s" % (callee, e.what))
+                continue
+            R.check(bad is None, "r7", key, C.loc(g["sp"]),
+                    "the deserialize_with hook %s on %s does not return a %s float unchanged (%s): a value that serializes fine (0.0, -0.0, "
+                    "5e-324 ...) cannot be read back" % (callee, owner, bad and bad[0], bad and bad[1]))
+        else:
+            R.fail("r7", key + "/unmodelled", C.loc(g["sp"]),
+                   "%s hook %s on %s (returns %s) has no model: state which values it accepts / emits and add it to the rule (fail closed)"
+                   % ("deserialize_with" if kind == "de" else "serialize_with", callee, owner, ret[:80]))
+    R.ok("r7", "hooks-inventoried", {"hooks": len(hooks)})
 
 
 def type_text_round_trip(ctx, R):
